@@ -22,6 +22,10 @@ pub fn gen_case(r: &mut Rng, out: &mut String) {
     writeln!(out, "tserde_events t0").unwrap();
     // --- every delivery kind reproduces the value
     for (i, k) in KINDS.iter().enumerate() {
+        if r.chance(1, 4) {
+            // a deserialization that breaks off half-way must leave nothing behind for the next one
+            writeln!(out, "tserde_visit seqfail t6 ser:t0").unwrap();
+        }
         if r.chance(3, 4) {
             let d = format!("t{}", i + 1);
             writeln!(out, "tserde_visit {} {} ser:t0", k, d).unwrap();
